@@ -1,14 +1,102 @@
-"""C15 - tracked particles follow the flow and stay on the grid"""
+"""C15 - tracked particles follow the flow and stay on the grid (API level; process level: a particle on a blob's centre follows the centroid)"""
+import math
+import os
+import sys
+
+import vlib
 from checks import _api
+sys.path.insert(0, os.path.join(vlib.VERIF, "proc"))
+import pl  # noqa: E402
 LEVEL = "exploration"
+
+
+def blob(n, sx, sy, q0, p0, w):
+    d = 12.0 / (n - 1)
+    v = []
+    for x in range(n):
+        for y in range(n):
+            q, p = -sx * d - 6 + x * d, -sy * d - 6 + y * d
+            v.append(math.exp(-0.5 * ((q - q0) ** 2 + (p - p0) ** 2) / (w * w)))
+    s = sum(v) * d * d
+    return [x / s for x in v]
+
+
+def process_level(res, tier):
+    """the real binary with a tracking file: rotation only (linear maps), so the particle placed on the blob's centre must follow the
+    recorded centroid; every recorded coordinate must lie on the grid.  Exercises main()'s wiring (each map applied once to the
+    particles, in order) and the conversion of the tracking file's physical coordinates on shifted grids."""
+    exe = pl.build.build_bin("plain")
+    wd = pl.workdir("c15")
+    cases = []
+    for n in ([32, 48] if tier == "thorough" else [32]):
+        for sx, sy in ([(0, 0), (2, -1), (-3, 2)] if tier == "thorough" else [(0, 0), (2, -1)]):
+            for si, (q0, p0) in enumerate([(1.0, 0.0), (-0.6, 0.9)]):
+                for it in ((2, 3, 4) if tier == "thorough" else (4,)):
+                    cases.append((n, sx, sy, si, q0, p0, it, 0))
+            cases.append((n, sx, sy, 0, 0.8, -0.5, 4, 3))    # with damping/diffusion and the stochastic tracking model: coordinates on the grid
+
+    def do(c):
+        n, sx, sy, si, q0, p0, it, fptrack = c
+        tag = "%d_%g_%g_%d_%d_%d" % (n, sx, sy, si, it, fptrack)
+        start = os.path.join(wd, "s_%s.h5" % tag)
+        pl.write_start_h5(start, n, blob(n, sx, sy, q0, p0, 0.6))
+        tf = os.path.join(wd, "t_%s.txt" % tag)
+        with open(tf, "w") as f:
+            f.write("%g %g\n-5.99 5.99\n5.99 -5.99\n" % (q0, p0))
+        a = ["-s", n, "-N", 32, "-T", 1, "-n", 1, "-G", 0, "-f", 45000, "--RenormalizeCharge", -1, "-i", start, "--padding", 2,
+             "--PhaseSpaceShiftX", sx, "--PhaseSpaceShiftY", sy, "--InterpolationPoints", it, "--tracking", tf, "--FPTrack", fptrack]
+        a += ["-d", 0, "--FPType", 0] if fptrack == 0 else ["-d", 2e-4]
+        r = pl.run(exe, a, wd, out="o_%s.h5" % tag)
+        doc = pl.h5(r["h5"], maxv=20000) if r["rc"] == 0 else None
+        for f in (start, tf, r["h5"], r["h5"] + ".cfg", r["h5"] + ".log"):
+            try:
+                os.remove(f)
+            except OSError:
+                pass
+        return c, r, doc
+    for c, r, doc in pl.pmap(do, cases):
+        n, sx, sy, si, q0, p0, it, fptrack = c
+        case = "process n=%d shift=%g,%g start=%d it=%d FPTrack=%d" % (n, sx, sy, si, it, fptrack)
+        rp = dict(cmd=r["cmd"], note="start file: Gaussian blob at (%g,%g) width 0.6; tracking file: that point and two corner points" % (q0, p0))
+        if doc is None or "error" in doc:
+            res.violate("C15/process/run-failed", case, "rc=%s %s" % (r["rc"], r["log"][-200:]), replay=rp)
+            continue
+        pt = pl.rows(doc, "/Particles/data")
+        q = doc["datasets"]["/BunchPosition/data"]["data"]
+        p = doc["datasets"]["/EnergyAverage/data"]["data"]
+        z, e = doc["datasets"]["/Info/AxisValues_z"]["data"], doc["datasets"]["/Info/AxisValues_E"]["data"]
+        res.eval(case, pl.chash(case, pt[-1] if pt else 0), trivial=False)
+        key = "C15/process/%s" % ("rotation" if fptrack == 0 else "stochastic")
+        d = 12.0 / (n - 1)
+        bad = False
+        for k, row in enumerate(pt):
+            for j in range(0, len(row), 2):
+                if not (z[0] - 1e-4 <= row[j] <= z[-1] + 1e-4 and e[0] - 1e-4 <= row[j + 1] <= e[-1] + 1e-4) or row[j] != row[j] or row[j + 1] != row[j + 1]:
+                    res.violate(key + "/leaves-grid", case, "record %d particle %d at (%g, %g), grid [%g,%g]x[%g,%g]" % (k, j // 2, row[j], row[j + 1], z[0], z[-1], e[0], e[-1]), replay=rp)
+                    bad = True
+                    break
+            if bad:
+                break
+            if fptrack == 0:
+                err = math.hypot(row[0] - q[k], row[1] - p[k])
+                res.coverage["worst_process_particle_vs_centroid_cells"] = max(res.coverage.get("worst_process_particle_vs_centroid_cells", 0), err / d)
+                # the stored particle coordinate is truncated to a grid point (q(index)): at most one cell below the true position in each direction
+                if err > 1.5 * d + 0.02:
+                    res.violate(key + "/particle-does-not-follow-centroid/%s" % ("shifted" if (sx or sy) else "centred"), case,
+                                "record %d: particle at (%.4f, %.4f), recorded centroid (%.4f, %.4f): %.2f cells apart" % (k, row[0], row[1], q[k], p[k], err / d), replay=rp)
+                    break
+    res.bounds_done.append("process level: %d runs with a tracking file (particle on a blob's centre + two corner particles)" % len(cases))
 
 
 def run(res, tier):
     res.assumptions += [
         "centroid comparison only where blob and image keep |offset|+3 cells clear of the border; 'inside the grid' is demanded everywhere",
         "the two deterministic Fokker-Planck tracking approximations are documented as approximations: only 'finite and inside the grid' is demanded of them",
-        "stochastic model: private PRNG re-seeded with enumerated seeds; ensemble of 4096 particles, 5 sigma/sqrt(N) on the mean, 6 % on the width"]
-    return _api.run(res, tier, ["C15_tracking"])
+        "stochastic model: private PRNG re-seeded with enumerated seeds; ensemble of 4096 particles, 5 sigma/sqrt(N) on the mean, 6 % on the width",
+        "process level: /Particles stores q(index) of the truncated grid coordinate, so a particle may appear up to one cell below its position in each direction (tolerance 1.5 cells)"]
+    c = _api.run(res, tier, ["C15_tracking"])
+    process_level(res, tier)
+    return c
 
 
 replay = _api.replay
